@@ -24,7 +24,8 @@ EXPLANATION = (
     "from the bytes already read); VHDX header selection by the higher sequence number, parent locator keys / values decoded as "
     "UTF-16-LE at offset + key/value offset with the stored lengths, disk id from the GUID item in bytes_le order; VMDK descriptor "
     "parsing (comments / blanks skipped, split at the first '=', ddb. routing, extent lines) and the embedded descriptor window; "
-    "Parallels descriptor element mapping; no XML Element is tested for truthiness. Does NOT decide equality for every stored value."
+    "Parallels descriptor element mapping; no XML Element is tested for truthiness; the virtual size / block size / sector size "
+    "clauses of VHDX, VHD, VDI and Parallels HDS are adopted from C03 - C06 (prefixed instances). Does NOT decide equality for every stored value."
 )
 ASSUMPTIONS = ["terms are compared by normal form and randomised identity testing"]
 
@@ -44,6 +45,11 @@ def run(chk: Check):
     parallels(chk)
     truthiness(chk)
     transforms(chk)
+    # virtual size / allocation unit / sector size of the other formats: decided by the format's own property, adopted here
+    chk.share("C03", lambda i: i.name.startswith("geometry:"), 4)
+    chk.share("C04", lambda i: i.name in ("size<-footer.current_size", "stream-size"), 2)
+    chk.share("C05", lambda i: i.name.startswith("geometry:") or i.name == "stream-size", 3)
+    chk.share("C06", lambda i: i.name in ("cluster-size", "size-by-version"), 2)
     chk.require("K-PROV", 20)
     chk.require("K-CONSUME", 4)
     chk.require("K-TRUTHY", 1)
